@@ -118,6 +118,8 @@ def zi(v):
         return z3.If(v.e, z3.IntVal(1), z3.IntVal(0))
     if isinstance(v, float):
         return z3.RealVal(repr(v))
+    if isinstance(v, z3.ArithRef):
+        return v
     raise Unsupported("cannot use %r as an integer term" % (v,))
 
 
@@ -126,6 +128,8 @@ def is_numlike(v):
 
 
 def bits_of(v):
+    if isinstance(v, z3.ExprRef):
+        return None
     if isinstance(v, bool):
         return 1 if v else 0
     if isinstance(v, int):
